@@ -2,11 +2,11 @@ module sjh
 
 go 1.22
 
-require github.com/minio/simdjson-go v0.0.0
-
 require (
-	github.com/klauspost/compress v1.18.0 // indirect
-	github.com/klauspost/cpuid/v2 v2.2.10 // indirect
+	github.com/klauspost/cpuid/v2 v2.2.10
+	github.com/minio/simdjson-go v0.0.0
 )
+
+require github.com/klauspost/compress v1.18.0 // indirect
 
 replace github.com/minio/simdjson-go => /repo
